@@ -255,6 +255,11 @@ impl Minifier
 				// for DATA always keep everything
 				if tok.kind()=="tok_data" {
 					self.minified_line += &node_str;
+					// the children are not visited, so the entry for `tok_data` in FORBIDS_COMBINING_NEXT has to be applied here
+					// (a statement appended to this line could end up inside the last item)
+					if let Some(linenum) = self.curr_linenum {
+						self.forbids_combining_next.insert(linenum);
+					}
 					return Ok(Navigation::GotoSibling);
 				}
 				// for ampersand keep everything unless flag is set
